@@ -239,6 +239,8 @@ def dnsDecodeQuery (b : RxBuf) : Except Fault Decoded :=
   -- memset(name, 0, sizeof(name)); readname(…, name, sizeof(name) - 1); name[sizeof(name)-1] = '\0';
   let (data, w) ← readname b 12 255
   let name := w.take 255
+  -- if (strlen(name) > 253) return -1;   (longer than any legal name: it could not be echoed in a well-formed reply)
+  if (cstr name).length > 253 then .ok { q with rv := -1 } else
   if checklenFails b 4 data then .ok q else do
   let (type, data) ← readshort b data
   let (_, _) ← readshort b data
